@@ -82,9 +82,30 @@ FxSystem.origin = "mod"
 FxAgent.origin = "mod"
 
 
-def hook(params):
+GEN = [0]           # the number of the decode in progress
+STALE = [0]         # hook calls that reached a function object bound for an earlier decode
+
+
+def bind_hooks(main_module):
+    """Every decode finds NEW function objects under the hook names (plug-in modules are reloaded, scenario folders switched):
+    the function that is bound when a description is decoded is the one that must be called."""
+    GEN[0] += 1
+    gen = GEN[0]
+
+    def fresh(params, gen=gen):
+        if gen != GEN[0]:
+            STALE[0] += 1
+        return _hook(params)
+    globals()["hook"] = fresh
+    main_module.main_hook = fresh
+
+
+def _hook(params):
     if params.get("swap_env") and CURRENT[0] is not None:
         from ECAgent.Core import Environment
         CURRENT[0].set_environment(Environment(CURRENT[0]))      # a hook may give the (still empty) model a new environment
     needs = params["kind"] not in ("pre_model", "post_model")
     _emit(params["kind"], params.get("i", 0), 0, needs and params.get("model") is CURRENT[0] and CURRENT[0] is not None)
+
+
+hook = _hook
